@@ -73,7 +73,7 @@ def scan(repo: str):
             return e.attr in set_attrs or e.attr in set_funcs
         return False
 
-    sites = set()
+    sites = []
     for rel, (src, t) in trees.items():
         funcs = [n for n in ast.walk(t) if isinstance(n, (ast.FunctionDef, ast.AsyncFunctionDef))]
         owner = {}
@@ -109,10 +109,10 @@ def scan(repo: str):
             # construction
             if isinstance(n, (ast.Set, ast.SetComp)) or (
                     isinstance(n, ast.Call) and isinstance(n.func, ast.Name) and n.func.id in ("set", "frozenset")):
-                sites.add((rel, fname, "construct"))
+                sites.append((rel, fname, "construct"))
             if isinstance(n, ast.BinOp) and isinstance(n.op, (ast.BitOr, ast.BitAnd, ast.Sub, ast.BitXor)) and (
                     keyscall(n.left) or keyscall(n.right)):
-                sites.add((rel, fname, "construct"))
+                sites.append((rel, fname, "construct"))
             # iteration
             it, kind = None, None
             if isinstance(n, ast.For):
@@ -130,17 +130,20 @@ def scan(repo: str):
             elif isinstance(n, ast.Starred):
                 it, kind = n.value, "iterate"
             if it is not None and setish(it, local):
-                sites.add((rel, fname, kind))
-    return sorted(sites)
+                sites.append((rel, fname, kind))
+    from collections import Counter
+    cnt = Counter(sites)
+    return sorted((f, fn, k, n) for (f, fn, k), n in cnt.items())
 
 
 def to_lean(sites) -> str:
-    rows = ",\n".join(f'  ("{f}", "{fn}", "{k}")' for f, fn, k in sites)
+    rows = ",\n".join(f'  ("{f}", "{fn}", "{k}", {n})' for f, fn, k, n in sites)
     return (
         "/-! GENERATED by harness/translate/c10_sites.py from /repo's current source on every run.\n"
-        "    Every (file, function, kind) where an unordered set is constructed, iterated or popped. -/\n"
+        "    Every (file, function, kind, number of such places in that function) where an unordered set is\n"
+        "    constructed, iterated or popped. -/\n"
         "namespace GuppyVerif.Determ.Gen\n\n"
-        "def setSites : List (String × String × String) := [\n" + rows + "\n]\n\n"
+        "def setSites : List (String × String × String × Nat) := [\n" + rows + "\n]\n\n"
         "end GuppyVerif.Determ.Gen\n"
     )
 
